@@ -502,21 +502,33 @@ fn check_string_parse(text: &str) -> Option<Violation> {
 /// interpolated string. Returns the source rewritten so that Luau's rules put the holes where full_moon puts them (a brace
 /// it does not see as a hole gets a backslash, a brace it wrongly sees as a hole loses its backslash).
 fn full_moon_reading(src: &str) -> String {
+    #[derive(PartialEq)]
+    enum Fm {
+        Normal,
+        /// after a backslash (and still after `\z`)
+        Escape,
+        /// after `\` followed by `u`: the `u` is consumed
+        AfterBackslashU,
+        /// the `{` of `\u{` is consumed
+        UnicodeOpen,
+        /// inside `\u{...`, up to (not including) the `}`
+        Unicode,
+    }
     let b: Vec<char> = src.chars().collect();
     let start = match b.iter().position(|c| *c == '`') {
         Some(i) => i + 1,
         None => return src.to_owned(),
     };
-    // positions of the braces each tokenizer takes as the start of a hole (top level of the literal only)
     let mut out: Vec<char> = b[..start].to_vec();
-    let (mut i, mut fm_escape) = (start, false);
+    let mut i = start;
+    let mut fm = Fm::Normal;
     // Luau: index up to which characters are already consumed by an escape
     let mut luau_skip_to = start;
     while i < b.len() {
         let c = b[i];
-        let luau_plain = i >= luau_skip_to;
-        if luau_plain && c == '\\' {
-            // Luau consumes the escape as a whole
+        let next = b.get(i + 1).copied();
+        // ---- Luau
+        if i >= luau_skip_to && c == '\\' {
             let mut j = i + 1;
             if j < b.len() {
                 match b[j] {
@@ -540,32 +552,25 @@ fn full_moon_reading(src: &str) -> String {
         }
         let luau_hole = c == '{' && i >= luau_skip_to;
         let luau_end = c == '`' && i >= luau_skip_to;
-        // full_moon
-        let (fm_hole, fm_end);
-        if fm_escape {
-            fm_escape = c == 'z';
-            fm_hole = false;
-            fm_end = false;
-        } else if c == '\\' {
-            if i + 1 < b.len() && b[i + 1] == 'u' {
-                // `\u{...}` is consumed as a whole by both
-                let mut j = i + 2;
-                if j < b.len() && b[j] == '{' {
-                    while j < b.len() && b[j] != '}' {
-                        j += 1;
-                    }
+        // ---- full_moon
+        let (mut fm_hole, mut fm_end) = (false, false);
+        match fm {
+            Fm::Escape => fm = if c == 'z' { Fm::Escape } else { Fm::Normal },
+            Fm::AfterBackslashU => fm = if next == Some('{') { Fm::UnicodeOpen } else { Fm::Normal },
+            Fm::UnicodeOpen => fm = if next == Some('}') || next.is_none() { Fm::Normal } else { Fm::Unicode },
+            Fm::Unicode => {
+                if next == Some('}') || next.is_none() {
+                    fm = Fm::Normal;
                 }
-                out.extend_from_slice(&b[i..j.min(b.len())]);
-                i = j;
-                luau_skip_to = luau_skip_to.max(j);
-                continue;
             }
-            fm_escape = true;
-            fm_hole = false;
-            fm_end = false;
-        } else {
-            fm_hole = c == '{';
-            fm_end = c == '`';
+            Fm::Normal => {
+                if c == '\\' {
+                    fm = if next == Some('u') { Fm::AfterBackslashU } else { Fm::Escape };
+                } else {
+                    fm_hole = c == '{';
+                    fm_end = c == '`';
+                }
+            }
         }
         if luau_hole && !fm_hole {
             out.push('\\');
@@ -594,7 +599,7 @@ fn full_moon_reading(src: &str) -> String {
                 }
                 i += 1;
             }
-            luau_skip_to = i;
+            luau_skip_to = luau_skip_to.max(i);
         } else if luau_end != fm_end {
             // the literal ends at different places: not modelled
             return src.to_owned();
